@@ -492,6 +492,30 @@ def run(tier, seed, replay):
         raise
     except Exception as e:
         rep.violation(core.Violation("C09:tensor-of-supers:raises", f"{type(e).__name__}: {e}"[:300], {}))
+    # ------------------------------------------------------------------ Qobj.permute with a nested order on operator-kets: the data
+    # moves with the labels (the index named in `order` is the one that is permuted), as tensor_swap does
+    try:
+        import qutip
+        Xa = qutip.Qobj(np.arange(6.).reshape(2, 3) + 1j * np.arange(6.).reshape(2, 3)[::-1], dims=[[2], [3]])
+        pa = qutip.operator_to_vector(Xa).permute([[1], [0]])
+        Xb = qutip.Qobj(np.arange(36.).reshape(6, 6), dims=[[2, 3], [2, 3]])
+        vb = qutip.operator_to_vector(Xb)
+        pb = vb.permute([[1, 0], [2, 3]])
+        want_b = Xb.full().reshape(2, 3, 2, 3).transpose(1, 0, 2, 3).reshape(6, 6)
+        rep.evaluations += 1
+        rep.count("permute-operator-ket")
+        bad_ = []
+        if pa.dims != [[[3], [2]], [1]] or not np.allclose(qutip.vector_to_operator(pa).full(), Xa.full().T):
+            bad_.append("exchanging the two indices of the operator-ket of a 2x3 operator does not give the operator-ket of its transpose")
+        if not np.allclose(qutip.vector_to_operator(pb).full(), want_b):
+            bad_.append("permute([[1, 0], [2, 3]]) on the operator-ket of an operator on [2, 3] relabels the row subsystems but moves other data "
+                        f"(tensor_swap(v, (0, 1)) {'agrees with the labels' if np.allclose(qutip.vector_to_operator(qutip.tensor_swap(vb, (0, 1))).full(), want_b) else 'disagrees too'})")
+        if bad_:
+            rep.violation(core.Violation("C09:permute-operator-ket", "Qobj.permute on operator-kets: " + "; ".join(bad_), {"cases": bad_}))
+    except core.CaseTimeout:
+        raise
+    except Exception as e:
+        rep.violation(core.Violation("C09:permute-operator-ket-raises", f"{type(e).__name__}: {e}"[:300], {}))
     model = core.run_driver(all_lines)
     ndis, first = 0, None
     for line, (kind, want), m, ci in zip(all_lines, all_impl, model, owner):
